@@ -222,7 +222,10 @@ impl Parser {
                 // This way, the expression: -1 * 2, is parsed as (* (-1) 2), instead of (- (1 * 2))
                 // Which would happen if unary operators (minus, on this case)
                 // had lower precedence.
-                let expr = self.parse_expr_bp(9)?; // Unary plus precedence
+                // 11 is above the right binding power of * / % (10): the operand of a unary sign is a single
+                // primary. (With 9, the left power of `*`, `- a * b` became `-(a * b)` and `x * - a / b`
+                // became `x * (-(a / b))`.)
+                let expr = self.parse_expr_bp(11)?; // Unary plus precedence
                 Ok(Expr::UnaryOp {
                     op: UnaryOperator::Plus,
                     expr: Box::new(expr),
@@ -237,7 +240,7 @@ impl Parser {
                     Ok(Expr::Number(num))
                 } else {
                     // Regular unary minus for expressions
-                    let expr = self.parse_expr_bp(9)?;
+                    let expr = self.parse_expr_bp(11)?;
                     Ok(Expr::UnaryOp {
                         op: UnaryOperator::Minus,
                         expr: Box::new(expr),
